@@ -828,7 +828,7 @@ func init() {
 		NotCov:      "interleaving-level outcomes; authentication of the remote peer itself is C03.",
 		Assumptions: commonAssumptions})
 	register(&Def{ID: "C05", Run: c05,
-		Explain:     "Decides on SSA: quic.Transport.DialPeer returns a non-nil link with a nil error only on paths where link.GetRemotePeer() was compared equal to the requested peer (or no peer was requested), the link being the per-address dialer's result; the controller's flush helper restarts dialers resolved with a lost link. Because the controller's linkDialer stores exactly DialPeer's result, this one obligation also carries 'a dialer keyed by X is never parked on an impostor's link'. (RETRY) the already-connected-to-another-peer and wrong-peer-answered returns of DialPeer are non-fatal, so the dialer for the requested peer keeps backing off; (MUSTCALL) the per-address dialer unregisters itself on every exit. certChainGates shared with C03; EQUIV obligations of the DialTptAddr directive.",
+		Explain:     "Decides on SSA: quic.Transport.DialPeer returns a non-nil link with a nil error only on paths where link.GetRemotePeer() was compared equal to the requested peer (or no peer was requested), the link being the per-address dialer's result; the controller's flush helper restarts dialers resolved with a lost link. Because the controller's linkDialer stores exactly DialPeer's result, this one obligation also carries 'a dialer keyed by X is never parked on an impostor's link'. (RETRY) the already-connected-to-another-peer and wrong-peer-answered returns of DialPeer are non-fatal, so the dialer for the requested peer keeps backing off; (MUSTCALL) the per-address dialer unregisters itself on every exit. certChainGates shared with C03; EQUIV obligations of the DialTptAddr directive. (GATE) the dialer-restart filter spares a dialer only because its key names another peer than the lost link's remote peer, or because it holds a different link.",
 		NotCov:      "retry timing and which peer answers at an address (runtime facts).",
 		Assumptions: commonAssumptions})
 	register(&Def{ID: "C06", Run: c06,
